@@ -65,7 +65,7 @@ func safeProp(s *stream, args []string) (out string) {
 	}
 	defer func() {
 		if r := recover(); r != nil {
-			out = "FAIL panic: " + fmt.Sprint(r)
+			out = "FAIL panic: " + oneLine(fmt.Sprint(r))
 		}
 	}()
 	d := s.prop(args)
@@ -75,7 +75,12 @@ func safeProp(s *stream, args []string) (out string) {
 	if d == "skip" {
 		return d
 	}
-	return "FAIL " + d
+	return "FAIL " + oneLine(d)
+}
+
+// oneLine keeps a verdict on one protocol line.
+func oneLine(s string) string {
+	return strings.NewReplacer("\n", "\\n", "\r", "\\r").Replace(s)
 }
 
 func eachLine(fn func(name string, s *stream, args []string, raw string)) {
